@@ -340,6 +340,9 @@ pub fn run_listen(c: &ListenCase) -> CaseResult {
     let mut mr = MultiReceiver::new(mon.clone(), Some(spec.config()), false);
     let log = Rc::new(RefCell::new(vec![]));
     mr.add_listener(Listener { log: log.clone() });
+    // a second listener registered alongside must see exactly the same events
+    let log2 = Rc::new(RefCell::new(vec![]));
+    mr.add_listener(Listener { log: log2.clone() });
     // model: which keys have a live session, expected event list
     let mut live: BTreeMap<usize, bool> = BTreeMap::new();
     let mut expected: Vec<(bool, usize)> = vec![];
@@ -424,6 +427,21 @@ pub fn run_listen(c: &ListenCase) -> CaseResult {
     let ks: Vec<usize> = live.iter().filter(|(_, v)| **v).map(|(k, _)| *k).collect();
     for k in ks {
         expected.push((false, k));
+    }
+    // both listeners: same multiset of events per key, in the same per-key order
+    {
+        let (a, b) = (log.borrow(), log2.borrow());
+        for (k, s) in sess.iter().enumerate() {
+            let key = ReceiverEndpoint { endpoint: endpoint(c.sessions[k].2), tsi: s.sender.tsi };
+            let ga: Vec<bool> = a.iter().filter(|(_, e)| *e == key).map(|(o, _)| *o).collect();
+            let gb: Vec<bool> = b.iter().filter(|(_, e)| *e == key).map(|(o, _)| *o).collect();
+            if ga != gb {
+                return Err(format!(
+                    "two listeners registered on the same receiver saw different events for session (endpoint {:?}, TSI {}): {:?} vs {:?} (true = open); ops {:?}",
+                    key.endpoint, key.tsi, ga, gb, c.ops
+                ));
+            }
+        }
     }
     // compare per key (the relative order of events of different keys at one cleanup/drop is unspecified)
     let got = log.borrow();
